@@ -133,6 +133,9 @@ func jTypeOf(s *jShape) reflect.Type {
 				{Name: "C", Type: e, Tag: `json:"-"`},
 				{Name: "D", Type: e, Tag: `json:"-,"`},
 				{Name: "E", Type: e, Tag: `json:"<e&>,omitempty,string"`},
+				// names of exactly 16 and 15 bytes (member names are looked up in 16-byte slots), differing in the last byte only
+				{Name: "F", Type: e, Tag: `json:"abcdefghijklmnop"`},
+				{Name: "G", Type: e, Tag: `json:"abcdefghijklmno,omitempty"`},
 			})
 		default:
 			panic("unknown wrapper " + s.K)
